@@ -343,3 +343,20 @@ PROPS["C12"] = {
     "assumptions": ["one handle kind per target (Func and ExportFunc on the same function within one builder are not mixed)"],
     "floors": [("histories", "target-with->=2-callback/stub-alternations", 200), ("histories", "pkg-override-next-lookup-only", 1)],
 }
+
+PROPS["C13"] = {
+    "prepare": [prep_corpus],
+    "units": [
+        {"name": "mistakes", "pkg": "./zverif/c13", "run": "^TestVerifC13$", "timeout": {"quick": 300, "thorough": 2400},
+         "shards": {"quick": 1, "thorough": 8}},
+    ],
+    "rule": "rapid draws (mistake class, corpus function / struct type / interface, position of the offending item): non-function target; callback with "
+            "too few/many parameters or results; parameter/result of different size at position i; When with 1..n-1 arguments; Return with 1..n-1 "
+            "values; return value of wrong size at position i; unknown method / symbol / method by name; Interface given a non-pointer or a pointer "
+            "to a non-interface; interface callback without *IContext, with too few / too many parameters, wrong result count, unknown method. Oracle: "
+            "the configuration call panics or errs; an error's cause chain terminates and reaches the repository's typed cause where one exists "
+            "(ArgsNotMatch, ReturnsNotMatch, IllegalParamType); afterwards the executable image is unchanged, the target runs its original body, the "
+            "interface variable is untouched and Reset does not panic. Every applicable mistake is non-trivial; distinct by (class, target, position).",
+    "assumptions": ["Return() with no values at all is not generated (goom treats it as 'no default yet'; see DESIGN section 5)"],
+    "floors": [("mistakes", "class/when-too-few", 30), ("mistakes", "class/ret-too-few", 30), ("mistakes", "class/cb-param-size", 50), ("mistakes", "class/iface-cb-too-few", 30)],
+}
